@@ -482,7 +482,8 @@ def expr_features(e: list, out: set[str] | None = None) -> set[str]:
     elif t == 'id':
         out.add('formal')
     elif t == 'neg':
-        out.add('usub')
+        # a signed literal is a literal, not an application of unary minus
+        out.add('lit:neg' if e[1][0] == 'num' else 'usub')
         expr_features(e[1], out)
     elif t == 'par':
         out.add('paren')
@@ -1487,7 +1488,7 @@ _EXPR_FEATS = {'paren', 'usub', 'pow', 'add', 'sub', 'mul', 'div', 'pi'}
 
 
 def _expr_family(f: set[str]) -> set[str]:
-    return {x for x in f if x in _EXPR_FEATS or x.startswith('fn:') or (x.startswith('lit:') and x != 'lit:int')}
+    return {x for x in f if x in _EXPR_FEATS or x.startswith('fn:') or (x.startswith('lit:') and x not in ('lit:int', 'lit:neg'))}
 
 
 def shrink(
